@@ -198,8 +198,8 @@ MUTANTS = [
      "            close_files_remove()\n            if self.locked:\n                self._commit_lock.release()\n            raise  # don't succeed silently",
      "            close_files_remove()\n            raise  # don't succeed silently"),
     ('C08', 'pack-flag-not-reset', FS,
-     "            with self._lock:\n                self._pack_is_in_progress = False\n\n        if not self.pack_keep_old:",
-     "            pass\n\n        if not self.pack_keep_old:"),
+     "            with self._lock:\n                self._pack_is_in_progress = False\n\n        with self._lock:\n            self._save_index()",
+     "            pass\n\n        with self._lock:\n            self._save_index()"),
     ('C08', 'swap-without-write-lock', FS,
      "            opos, index = pack_result\n            with self._files.write_lock():\n                with self._lock:",
      "            opos, index = pack_result\n            with contextlib.nullcontext():\n                with self._lock:"),
